@@ -31,8 +31,29 @@ Record rebuild_obs := {
   rb_ok : bool;                         (* generateMissingEcFiles returned no error *)
   rb_generated : list Z;                (* generatedShardIds *)
   rb_lens : list Z;                     (* the 14 file lengths afterwards *)
-  rb_data : list (Z * list byte);       (* every regenerated DATA shard: (id, bytes) *)
-  rb_parity_same : bool                 (* every regenerated PARITY shard is byte-identical to the one generateEcFiles wrote *)
+  rb_data : list (Z * list byte);       (* every regenerated shard, data AND parity: (id, bytes) *)
+  rb_buf : Z                            (* buffer size of the rebuild loop: ErasureCodingSmallBlockSize when the real
+                                           generateMissingEcFiles ran, else the size given to its transcription
+                                           VerifRebuildEcFilesSized (several passes over small shards) *)
+}.
+
+(* one REAL WriteEcFiles + RebuildEcFiles run with the production constants on a .dat of
+   tens of MiB (shards of several MiB: rebuildEcFiles makes several passes with its 1 MiB
+   buffer).  The files are too big to ship: the .dat is mix_byte(seed) (closed form in the
+   position), the shard files are sampled at [bg_offsets]. *)
+Record big_obs := {
+  bg_large : Z; bg_small : Z; bg_rbuf : Z;   (* ErasureCodingLargeBlockSize, ErasureCodingSmallBlockSize (also the rebuild buffer) *)
+  bg_seed : Z; bg_dsize : Z;
+  bg_gen_ok : bool;                     (* WriteEcFiles returned nil *)
+  bg_lens : list Z;                     (* the 14 shard file lengths *)
+  bg_offsets : list Z;                  (* sampled shard offsets: around every multiple of the rebuild buffer, the ends, random *)
+  bg_orig : list (list byte);           (* 14 lists: the bytes of every shard file WriteEcFiles wrote, at the offsets *)
+  bg_present : list bool;
+  bg_ok : bool;                         (* RebuildEcFiles returned nil *)
+  bg_generated : list Z;
+  bg_rlens : list Z;                    (* the 14 file lengths after the rebuild *)
+  bg_rebuilt : list (Z * list byte);    (* every regenerated shard: (id, its bytes at the offsets) *)
+  bg_first_diff : list Z                (* per regenerated shard: first offset where the whole file differs from the original one, -1 = identical (compared on the Go side) *)
 }.
 
 Record case := {
@@ -42,12 +63,14 @@ Record case := {
   c_gen_ok : bool;                      (* generateEcFiles returned nil *)
   c_shard_lens : list Z;                (* 14 *)
   c_data_shards : list (list byte);     (* .ec00 .. .ec09 *)
+  c_parity_shards : list (list byte);   (* .ec10 .. .ec13 *)
   c_colwise : bool;                     (* every byte column of .ec10...ec13 = reedsolomon Encode of that column of the data shards *)
-  c_wd_sync : bool;                     (* the parameterised transcription of WriteDatFile is textually the real one, and the real one agrees on a small volume *)
+  c_wd_sync : bool;                     (* the parameterised transcriptions of WriteDatFile and rebuildEcFiles are textually the real ones, and the real WriteDatFile agrees on a small volume *)
   c_decode_run : bool;
   c_decoded : option (list byte);       (* None = error *)
   c_reads : list read_obs;
-  c_rebuilds : list rebuild_obs
+  c_rebuilds : list rebuild_obs;
+  c_big : list big_obs
 }.
 
 (* ---------- equality tests ---------- *)
@@ -112,26 +135,61 @@ Definition check_read (c : case) (dat : list byte) (mshards : list (list byte)) 
 
 Definition check_rebuild (c : case) (mshards : list (list byte)) (rb : rebuild_obs) : bool * bool :=
   let slen := zlen (znth mshards 0 []) in
+  let B := rb_buf rb in
   (* model side: 14 files of the right length (parity content irrelevant for the stub) *)
   let files := mshards ++ repeat (repeat 0%N (Z.to_nat slen)) 4 in
-  let m := rebuild stub_rs_rec (c_rbuf c) (apply_mask (rb_present rb) files) in
+  let m := rebuild stub_rs_rec B (apply_mask (rb_present rb) files) in
   let lost := lost_ids (rb_present rb) in
   let few := count_lost (rb_present rb) <=? 4 in
+  (* the hypothesis of c06_rebuild on the buffer (production: B = small block divides the shard size) *)
+  let buf_ok := (0 <? B) && ((slen mod B =? 0) || (slen <? B)) in
   let data_ok (orig : list (list byte)) :=
     forallb (fun p => bytes_eqb (znth orig (fst p) []) (snd p)) (rb_data rb) &&
-    zlist_eqb (filter (fun i => i <? 10) lost) (map fst (rb_data rb)) in
+    zlist_eqb lost (map fst (rb_data rb)) in
   let corr :=
     match m with
     | Some outs => rb_ok rb && zlist_eqb (map zlen outs) (rb_lens rb) && zlist_eqb lost (rb_generated rb) &&
-                   data_ok mshards && rb_parity_same rb
+                   data_ok (mshards ++ c_parity_shards c)
     | None => negb (rb_ok rb)
     end in
   let prop :=
-    if few then
+    if few && buf_ok then
       rb_ok rb && zlist_eqb lost (rb_generated rb) && zlist_eqb (c_shard_lens c) (rb_lens rb) &&
-      data_ok (c_data_shards c) && rb_parity_same rb
+      data_ok (c_data_shards c ++ c_parity_shards c)
     else true in
   (corr, prop).
+
+(* the production-size run: data shard bytes through the closed form [shard_byte]
+   (= the model's data_shard by shard_byte_correct / shard_len_correct), regenerated
+   shards against the shards WriteEcFiles wrote *)
+Definition check_big (b : big_obs) : bool * bool * bool :=
+  let L := bg_large b in let S := bg_small b in let D := bg_dsize b in
+  let len := shard_len L S D in
+  let offs := bg_offsets b in
+  let lost := lost_ids (bg_present b) in
+  let few := count_lost (bg_present b) <=? 4 in
+  let in_range := forallb (fun o => (0 <=? o) && (o <? len)) offs in
+  let m_data := map (fun i => map (shard_byte (mix_byte (bg_seed b)) L S D i) offs) (zrange 0 10) in
+  let rebuilt_ok (orig : list (list byte)) :=
+    forallb (fun p => bytes_eqb (znth orig (fst p) []) (snd p)) (bg_rebuilt b) &&
+    zlist_eqb lost (map fst (bg_rebuilt b)) in
+  let corr :=
+    (L =? 1073741824) && (S =? 1048576) && (bg_rbuf b =? S) &&
+    bg_gen_ok b && in_range &&
+    zlist_eqb (repeat len 14) (bg_lens b) &&
+    all2 bytes_eqb m_data (firstn 10 (bg_orig b)) &&
+    (if few then bg_ok b && zlist_eqb (repeat len 14) (bg_rlens b) && zlist_eqb lost (bg_generated b) &&
+                 rebuilt_ok (m_data ++ skipn 10 (bg_orig b))
+     else negb (bg_ok b)) in
+  let prop :=
+    if few then
+      bg_ok b && zlist_eqb lost (bg_generated b) && zlist_eqb (bg_lens b) (bg_rlens b) &&
+      rebuilt_ok (bg_orig b) && forallb (fun d => d =? -1) (bg_first_diff b) &&
+      Nat.eqb (length (bg_first_diff b)) (length lost)
+    else true in
+  (* non-trivial: more than one pass of the rebuild loop, and samples behind the first pass *)
+  let nontriv := (bg_rbuf b <? len) && existsb (fun o => bg_rbuf b <=? o) offs && negb (Nat.eqb (length lost) 0) in
+  (corr, prop, nontriv).
 
 Definition check (c : case) : outcome :=
   let L := c_large c in let S := c_small c in let D := c_dsize c in
@@ -140,15 +198,19 @@ Definition check (c : case) : outcome :=
   let slen := zlen (znth mshards 0 []) in
   let rd := map (check_read c dat mshards) (c_reads c) in
   let rbs := map (check_rebuild c mshards) (c_rebuilds c) in
+  let bigs := map check_big (c_big c) in
   let corr_layout :=
     c_gen_ok c && c_colwise c && c_wd_sync c &&
     zlist_eqb (repeat slen 14) (c_shard_lens c) &&
+    (slen =? shard_len L S D) &&
+    Nat.eqb (length (c_parity_shards c)) 4 &&
     all2 bytes_eqb mshards (c_data_shards c) in
   let corr_dec := if c_decode_run c then obytes_eqb (write_dat L S mshards D) (c_decoded c) else true in
   let prop_dec := if c_decode_run c then obytes_eqb (Some dat) (c_decoded c) else true in
-  {| o_corr := corr_layout && corr_dec && forallb fst rd && forallb fst rbs;
-     o_prop := c_gen_ok c && prop_dec && forallb snd rd && forallb snd rbs;
+  {| o_corr := corr_layout && corr_dec && forallb fst rd && forallb fst rbs && forallb (fun x => fst (fst x)) bigs;
+     o_prop := c_gen_ok c && prop_dec && forallb snd rd && forallb snd rbs && forallb (fun x => snd (fst x)) bigs;
      o_trig := None;
-     o_nontrivial := (0 <? D) && (negb (Nat.eqb (length (c_reads c)) 0) || negb (Nat.eqb (length (c_rebuilds c)) 0)) |}.
+     o_nontrivial := ((0 <? D) && (negb (Nat.eqb (length (c_reads c)) 0) || negb (Nat.eqb (length (c_rebuilds c)) 0)))
+                     || existsb snd bigs |}.
 
 Definition summarize_cases (l : list case) : summary := summarize check l.
